@@ -2,8 +2,9 @@
 
 Static part: C17/Props.v (vectorisation orders are bijections, reshuffling is an involution,
 L|rho) = |sum K rho K^dagger), Choi<->Liouville, Pauli basis orthogonality for every n and every
-pauli_order, to/from Pauli inverse up to d^2, Stinespring round trip, bounded path independence,
-choi_to_kraus under the contract of eigh, QuantumChannel results).
+pauli_order, to/from Pauli inverse up to d^2, the Pauli-Liouville and chi matrices act as the channel (pauli_acts,
+chi_ok), path independence along any path of the conversion table for every n, Stinespring round trip,
+choi_to_kraus under the contract of eigh incl. the rank-deficient case, QuantumChannel results).
 
 Run-time part (this file): the real functions of qibo.quantum_info are executed on
 integer-valued, deliberately asymmetric Kraus sets / operators (the conversions are linear, so
@@ -747,9 +748,9 @@ def main(run):
                         "eigh/svd/minimize are oracles: choi_to_kraus is proved only under the contract of eigh"]
     run.not_proved += ["*_to_kraus / *_to_stinespring through eigh, kraus_to_unitaries (scipy minimize): test only",
                        "link_product for general subscripts (only the channel patterns 'ij,jk->ik' and '@')",
-                       "pauli_acts / chi_ok as general theorems (the Pauli-Liouville and chi matrices act as the channel): covered by the "
-                       "exact Spec check of every run and by path_independence_bounded, not by a theorem for every n",
-                       "path independence for every n (proved: bounded instance check n<=2 plus the general index theorems)"]
+                       "normalize=True variants: the theorems are about the un-normalised basis (factor 2^n per basis change); the "
+                       "normalised functions are tied to them by the scaling comparison of every run",
+                       "system order for the functions through _reshuffling (NotImplementedError in the code)"]
     ok, pa = vcore.static_assumptions("C17/Props")
     for name in vcore.props_theorems("C17/Props.v"):
         run.oblige(name, ok and name in pa, "static theorem")
